@@ -1638,12 +1638,47 @@ impl VirtualFileSystem for Memfs {
         let dst_root = self._abs(&guard, dst)?;
         let copy_into = self._is_dir(&guard, &dst_root);
 
+        // Validate everything up front so that a failed move leaves the filesystem untouched
+        let src_is_dir = match guard.get_entry(&src_root) {
+            Some(entry) => entry.is_dir() && !entry.is_symlink(),
+            None => return Err(PathError::does_not_exist(src_root).into()),
+        };
+        let dst_target = if copy_into { dst_root.mash(src_root.base()?) } else { dst_root.clone() };
+        if dst_target == src_root {
+            return Ok(());
+        }
+        if dst_target.starts_with(&src_root) {
+            return Err(PathError::dir_does_not_match_parent(dst_target).into());
+        }
+        match guard.get_entry(&dst_target.dir()?) {
+            Some(parent) if parent.is_dir() && !parent.is_symlink() => {},
+            Some(_) => return Err(PathError::is_not_dir(dst_target.dir()?).into()),
+            None => return Err(PathError::parent_not_found(dst_target.dir()?).into()),
+        }
+
+        // Replace an existing destination file, link or empty directory like a rename would
+        if let Some(existing) = guard.get_entry(&dst_target) {
+            let existing_is_dir = existing.is_dir() && !existing.is_symlink();
+            if existing_is_dir && !src_is_dir {
+                return Err(PathError::is_not_file(dst_target).into());
+            } else if !existing_is_dir && src_is_dir {
+                return Err(PathError::is_not_dir(dst_target).into());
+            } else if existing_is_dir && existing.files.as_ref().map_or(false, |x| !x.is_empty()) {
+                return Err(PathError::dir_contains_files(dst_target).into());
+            }
+            if let Some(parent) = guard.get_entry_mut(&dst_target.dir()?) {
+                parent.remove(dst_target.base()?)?;
+            }
+            guard.remove_file(&dst_target);
+            guard.remove_entry(&dst_target);
+        }
+
         let mut paths = vec![src_root.clone()];
         while let Some(src_path) = paths.pop() {
-            let dst_path = if copy_into {
-                dst_root.mash(src_path.trim_prefix(src_root.dir()?))
-            } else {
-                dst_root.mash(src_path.trim_prefix(&src_root))
+            let dst_path = match src_path.strip_prefix(&src_root) {
+                Ok(rel) if rel.as_os_str().is_empty() => dst_target.clone(),
+                Ok(rel) => dst_target.join(rel),
+                Err(_) => return Err(PathError::does_not_exist(src_path).into()),
             };
 
             // 1. Move the entry to its new `dst_path`
